@@ -331,8 +331,7 @@ func TestVerifAuthMatrix(t *testing.T) {
 			rp.Group.Codes = g.Codes
 			if granted && !allowed {
 				sig := authx.Sig(*g, ex > 0, "authz")
-				if !seenSig[sig] {
-					seenSig[sig] = true
+				if authx.Report(seenSig, sig) {
 					vtrace.Mismatch(sig, fmt.Sprintf("authorizer granted %s to user %s (world %s, default db %q) although the property does not allow it",
 						vaWhat(g), users[ui].Name(), g.World, ddb), rp)
 				}
@@ -563,6 +562,26 @@ func vaProject(c *Client, user string) vaProj {
 	return p
 }
 
+// vaKindClass names the class of a change history for signatures: which kinds of change that
+// replace the stored hash / the record occurred.
+func vaKindClass(kinds []string) string {
+	m := map[string]bool{}
+	for _, k := range kinds {
+		switch k {
+		case "setpw", "drop", "create":
+			m[k] = true
+		default:
+			m["grants"] = true
+		}
+	}
+	var ks []string
+	for k := range m {
+		ks = append(ks, k)
+	}
+	sort.Strings(ks)
+	return strings.Join(ks, "+")
+}
+
 type vaOutcome struct {
 	sig, detail string // property mismatch
 	drift       string // model and code disagree without a property violation
@@ -660,7 +679,7 @@ func vaReplay(be vaBackend, name string, beh []vaStep) (out vaOutcome) {
 					if !st.Fin || st.Res != "ok" {
 						// the model says this call does not succeed here
 						if !st.Legit {
-							out.sig = "cache:old-credential-accepted:" + strings.Join(kinds, "+")
+							out.sig = "cache:old-credential-accepted:" + vaKindClass(kinds)
 							out.detail = where + ": Authenticate succeeded with a password that was not the user's password at this node at any time during the call"
 							return
 						}
@@ -678,7 +697,7 @@ func vaReplay(be vaBackend, name string, beh []vaStep) (out vaOutcome) {
 						}
 					}
 					if !okv {
-						out.sig = "cache:old-privilege-returned:" + strings.Join(kinds, "+")
+						out.sig = "cache:old-privilege-returned:" + vaKindClass(kinds)
 						out.detail = fmt.Sprintf("%s: Authenticate returned a user record %+v that the node did not hold during the call (held %+v)", where, view, st.OkViews)
 						return
 					}
@@ -746,8 +765,7 @@ func vaReport(t *testing.T, test string, o vaOutcome, beh []vaStep, initPw strin
 		t.Error(o.infra)
 		return true
 	case o.sig != "":
-		if !seen[o.sig] {
-			seen[o.sig] = true
+		if authx.Report(seen, o.sig) {
 			vtrace.Mismatch(o.sig, o.detail, rp)
 		}
 	case o.drift != "":
@@ -780,7 +798,13 @@ func TestVerifAuthCache(t *testing.T) {
 		if err != nil {
 			vaInfra(t, "%v", err)
 		}
-		if err := s.commit(func(d *Data) error { return d.CreateDatabase("d1") }); err != nil {
+		// "keeper" keeps the user count above zero (AuthorizeQuery has a special case for an empty user list)
+		if err := s.commit(func(d *Data) error {
+			if err := d.CreateDatabase("d1"); err != nil {
+				return err
+			}
+			return d.CreateUser("keeper", vaHash("keeper"), true)
+		}); err != nil {
 			vaInfra(t, "%v", err)
 		}
 		idx := s.publish()
